@@ -18,7 +18,10 @@ package rules
 //@ iface rules.EventRule.*
 //@   requires ctx != nil
 //@   modifies obj(ctx), memall(contextStackEntry), memall(byte), maps, alloc, lastRuleCall
+//@   ensures ctx.objectCount == old(ctx.objectCount)
 //@   may_panic
+// (the object counter is written only by NotifyNewObject and Reset: structural check below)
+//@ structural rules-objectcount-writers: only_writers rules.Context.objectCount in rules: rules.(*Context).NotifyNewObject rules.(*Context).Reset
 // lastRuleCall: which handler of the EventRule interface was called last (set by the per-method
 // contracts in contracts_verif_c10.go; any other handler leaves it arbitrary). It lets the
 // marked-object states say "the parent state receives the same event the marker received".
@@ -158,66 +161,82 @@ package rules
 
 //@ func (*RulesEventReceiver).OnNull
 //@   use PASS(_this)
+//@   ensures _this.context.objectCount == old(_this.context.objectCount) + 1
 //@   forwards OnNull()
 
 //@ func (*RulesEventReceiver).OnBoolean
 //@   use PASS(_this)
+//@   ensures _this.context.objectCount == old(_this.context.objectCount) + 1
 //@   forwards OnBoolean(value)
 
 //@ func (*RulesEventReceiver).OnTrue
 //@   use PASS(_this)
+//@   ensures _this.context.objectCount == old(_this.context.objectCount) + 1
 //@   forwards OnTrue()
 
 //@ func (*RulesEventReceiver).OnFalse
 //@   use PASS(_this)
+//@   ensures _this.context.objectCount == old(_this.context.objectCount) + 1
 //@   forwards OnFalse()
 
 //@ func (*RulesEventReceiver).OnPositiveInt
 //@   use PASS(_this)
+//@   ensures _this.context.objectCount == old(_this.context.objectCount) + 1
 //@   forwards OnPositiveInt(value)
 
 //@ func (*RulesEventReceiver).OnNegativeInt
 //@   use PASS(_this)
+//@   ensures _this.context.objectCount == old(_this.context.objectCount) + 1
 //@   forwards OnNegativeInt(value)
 
 //@ func (*RulesEventReceiver).OnInt
 //@   use PASS(_this)
+//@   ensures _this.context.objectCount == old(_this.context.objectCount) + 1
 //@   forwards OnInt(value)
 
 //@ func (*RulesEventReceiver).OnUID
 //@   use PASS(_this)
+//@   ensures _this.context.objectCount == old(_this.context.objectCount) + 1
 //@   forwards OnUID(value)
 
 //@ func (*RulesEventReceiver).OnNan
 //@   use PASS(_this)
+//@   ensures _this.context.objectCount == old(_this.context.objectCount) + 1
 //@   forwards OnNan(signaling)
 
 //@ func (*RulesEventReceiver).OnTime
 //@   use PASS(_this)
+//@   ensures _this.context.objectCount == old(_this.context.objectCount) + 1
 //@   forwards OnTime(value)
 
 //@ func (*RulesEventReceiver).OnList
 //@   use PASS(_this)
+//@   ensures _this.context.objectCount == old(_this.context.objectCount) + 1
 //@   forwards OnList()
 
 //@ func (*RulesEventReceiver).OnMap
 //@   use PASS(_this)
+//@   ensures _this.context.objectCount == old(_this.context.objectCount) + 1
 //@   forwards OnMap()
 
 //@ func (*RulesEventReceiver).OnRecordType
 //@   use PASS(_this)
+//@   ensures _this.context.objectCount == old(_this.context.objectCount) + 1
 //@   forwards OnRecordType(identifier)
 
 //@ func (*RulesEventReceiver).OnRecord
 //@   use PASS(_this)
+//@   ensures _this.context.objectCount == old(_this.context.objectCount) + 1
 //@   forwards OnRecord(identifier)
 
 //@ func (*RulesEventReceiver).OnEdge
 //@   use PASS(_this)
+//@   ensures _this.context.objectCount == old(_this.context.objectCount) + 1
 //@   forwards OnEdge()
 
 //@ func (*RulesEventReceiver).OnNode
 //@   use PASS(_this)
+//@   ensures _this.context.objectCount == old(_this.context.objectCount) + 1
 //@   forwards OnNode()
 
 //@ func (*RulesEventReceiver).OnEndContainer
@@ -226,42 +245,52 @@ package rules
 
 //@ func (*RulesEventReceiver).OnMarker
 //@   use PASS(_this)
+//@   ensures _this.context.objectCount == old(_this.context.objectCount) + 1
 //@   forwards OnMarker(identifier)
 
 //@ func (*RulesEventReceiver).OnReferenceLocal
 //@   use PASS(_this)
+//@   ensures _this.context.objectCount == old(_this.context.objectCount) + 1
 //@   forwards OnReferenceLocal(identifier)
 
 //@ func (*RulesEventReceiver).OnArray
 //@   use PASS(_this)
+//@   ensures _this.context.objectCount == old(_this.context.objectCount) + 1
 //@   forwards OnArray(arrayType, elementCount, value)
 
 //@ func (*RulesEventReceiver).OnStringlikeArray
 //@   use PASS(_this)
+//@   ensures _this.context.objectCount == old(_this.context.objectCount) + 1
 //@   forwards OnStringlikeArray(arrayType, value)
 
 //@ func (*RulesEventReceiver).OnMedia
 //@   use PASS(_this)
+//@   ensures _this.context.objectCount == old(_this.context.objectCount) + 1
 //@   forwards OnMedia(mediaType, value)
 
 //@ func (*RulesEventReceiver).OnCustomBinary
 //@   use PASS(_this)
+//@   ensures _this.context.objectCount == old(_this.context.objectCount) + 1
 //@   forwards OnCustomBinary(customType, value)
 
 //@ func (*RulesEventReceiver).OnCustomText
 //@   use PASS(_this)
+//@   ensures _this.context.objectCount == old(_this.context.objectCount) + 1
 //@   forwards OnCustomText(customType, value)
 
 //@ func (*RulesEventReceiver).OnArrayBegin
 //@   use PASS(_this)
+//@   ensures _this.context.objectCount == old(_this.context.objectCount) + 1
 //@   forwards OnArrayBegin(arrayType)
 
 //@ func (*RulesEventReceiver).OnMediaBegin
 //@   use PASS(_this)
+//@   ensures _this.context.objectCount == old(_this.context.objectCount) + 1
 //@   forwards OnMediaBegin(mediaType)
 
 //@ func (*RulesEventReceiver).OnCustomBegin
 //@   use PASS(_this)
+//@   ensures _this.context.objectCount == old(_this.context.objectCount) + 1
 //@   forwards OnCustomBegin(arrayType, customType)
 
 //@ func (*RulesEventReceiver).OnArrayChunk
@@ -274,26 +303,31 @@ package rules
 
 //@ func (*RulesEventReceiver).OnBigInt
 //@   use PASS(_this)
+//@   ensures _this.context.objectCount == old(_this.context.objectCount) + 1
 //@   forwards value == nil : OnNull()
 //@   forwards !(value == nil) : OnBigInt(value)
 
 //@ func (*RulesEventReceiver).OnBigFloat
 //@   use PASS(_this)
+//@   ensures _this.context.objectCount == old(_this.context.objectCount) + 1
 //@   forwards value == nil : OnNull()
 //@   forwards !(value == nil) : OnBigFloat(value)
 
 //@ func (*RulesEventReceiver).OnFloat
 //@   use PASS(_this)
+//@   ensures _this.context.objectCount == old(_this.context.objectCount) + 1
 //@   forwards isNaN(value) : OnNan((bits(value) & 0x0008000000000000) == 0)
 //@   forwards !(isNaN(value)) : OnFloat(value)
 
 //@ func (*RulesEventReceiver).OnDecimalFloat
 //@   use PASS(_this)
+//@   ensures _this.context.objectCount == old(_this.context.objectCount) + 1
 //@   forwards DFloatIsNan(value) : OnNan(DFloatIsSignaling(value))
 //@   forwards !(DFloatIsNan(value)) : OnDecimalFloat(value)
 
 //@ func (*RulesEventReceiver).OnBigDecimalFloat
 //@   use PASS(_this)
+//@   ensures _this.context.objectCount == old(_this.context.objectCount) + 1
 //@   forwards value == nil : OnNull()
 //@   forwards value != nil && value.Form == apd.NaNSignaling : OnNan(true)
 //@   forwards value != nil && value.Form == apd.NaN : OnNan(false)
